@@ -191,6 +191,7 @@ def judge(sess, res, check_frame=True):
     prev_snap = None
     varm_taint = set()        # variables written through varm: values unknown to this oracle
     indep = False
+    view_stale = False
     for ln in range(1, len(sess.lines) + 1):
         a = sess.ann.get(ln)
         text = sess.lines[ln - 1]
@@ -201,6 +202,10 @@ def judge(sess, res, check_frame=True):
             indep = False
         if len(toks) >= 2 and toks[1] in ('sync', 'close') and not indep:
             exp.dirty.clear()
+        if len(toks) >= 2 and toks[1] in ('put', 'iput', 'bput', 'wait', 'fill_var_rec', 'redef', 'enddef', '_enddef', 'open', 'create'):
+            view_stale = True           # the record count reported by the last `inq` may be out of date
+        if len(toks) >= 2 and toks[1] == 'inq':
+            view_stale = False
         if not a:
             continue
         if a['kind'] == 'put':
@@ -324,7 +329,7 @@ def judge(sess, res, check_frame=True):
             # header numrecs field vs reported numrecs
             nn = 8 if view.fmt == 5 else 4
             filenr = int.from_bytes(at(4, nn), 'big')
-            if view.numrecs >= 0 and filenr != view.numrecs and not indep:
+            if view.numrecs >= 0 and filenr != view.numrecs and not indep and not view_stale:
                 fails.append(dict(kind='numrecs-file', line=ln, rank=0,
                                   detail='header field %d, library reports %d' % (filenr, view.numrecs)))
             if check_frame and prev_snap is not None and prev_snap[1] is not None and not a.get('noframe'):
